@@ -1,14 +1,14 @@
 SPECIFICATION Spec
 CONSTANTS
   K = 12
-  MaxSlits = 3
-  BeamPos = {0, 5}
-  Phases <- MC_Phases12
-  Ratios <- MC_Ratios
-  MaxPulses = 4
+  MaxSlits = 2
+  BeamPos = {5}
+  Phases <- MC_PhasesQ
+  Ratios <- MC_RatiosQ
+  MaxPulses = 3
   MaxTurns = 12
   Pick = 0
-  Bug = "none"
+  Bug = "truncate"
 INVARIANT TypeOK
 INVARIANT RejectedIffOverlap
 INVARIANT RefusedIffOutOfPhase
